@@ -102,6 +102,7 @@ RESETS = []
 for _a, _trig in (("collar", ["_collar"]), ("surveys", ["_surveys"])):
     _k = _setters.make(f"Reset_Drillhole_{_a}", f"geoh5py/objects/drillhole.py::Drillhole.{_a}.fset", "geoh5py.objects.drillhole.Drillhole", _a, resets=["_locations"], write_through=False, props=("C18",))
     _k.triggers = tuple(_trig)
+    _k.coupled = ("_trace", "_trace_depth", "_end_of_hole")  # the stored well path and the end of hole are derived from collar / surveys by design
     _k.__module__ = __name__
     globals()[_k.__name__] = _k
     RESETS.append(_k)
